@@ -199,6 +199,73 @@ func init() {
 			a.assumeWF(st, types.NewInterfaceType(nil, nil), v, 1)
 			return []Term{v, e}
 		},
+		"(reflect.Type).NumIn": func(a *Act, st *State, callee *ssa.Function, args []Term, pos token.Pos) []Term {
+			a.mayPanic(st, "nilderef", pos, Not(Eq(args[0], "VNil")), "")
+			a.tr.eng.declareOnce(a.tr, "spec_rtNumIn", "(declare-fun spec_rtNumIn (Val) Int)")
+			r := app("spec_rtNumIn", args[0])
+			a.tr.assume(app(">=", r, "0"), "reflect: NumIn >= 0")
+			return []Term{r}
+		},
+		"(reflect.Type).NumOut": func(a *Act, st *State, callee *ssa.Function, args []Term, pos token.Pos) []Term {
+			a.mayPanic(st, "nilderef", pos, Not(Eq(args[0], "VNil")), "")
+			a.tr.eng.declareOnce(a.tr, "spec_rtNumOut", "(declare-fun spec_rtNumOut (Val) Int)")
+			r := app("spec_rtNumOut", args[0])
+			a.tr.assume(app(">=", r, "0"), "reflect: NumOut >= 0")
+			return []Term{r}
+		},
+		"(reflect.Type).IsVariadic": func(a *Act, st *State, callee *ssa.Function, args []Term, pos token.Pos) []Term {
+			a.mayPanic(st, "nilderef", pos, Not(Eq(args[0], "VNil")), "")
+			a.tr.eng.declareOnce(a.tr, "spec_rtVariadic", "(declare-fun spec_rtVariadic (Val) Bool)")
+			return []Term{app("spec_rtVariadic", args[0])}
+		},
+		"(reflect.Type).In": func(a *Act, st *State, callee *ssa.Function, args []Term, pos token.Pos) []Term {
+			a.mayPanic(st, "nilderef", pos, Not(Eq(args[0], "VNil")), "")
+			r := a.tr.freshConst("rtype", "Val")
+			a.tr.assume(Implies(st.reach, And(Not(Eq(r, "VNil")), app("idsOK", r, st.alloc))), "reflect: Type.In returns a non-nil type")
+			return []Term{r}
+		},
+		"(reflect.Type).Elem": func(a *Act, st *State, callee *ssa.Function, args []Term, pos token.Pos) []Term {
+			a.mayPanic(st, "nilderef", pos, Not(Eq(args[0], "VNil")), "")
+			r := a.tr.freshConst("rtype", "Val")
+			a.tr.assume(Implies(st.reach, And(Not(Eq(r, "VNil")), app("idsOK", r, st.alloc))), "reflect: Type.Elem returns a non-nil type")
+			return []Term{r}
+		},
+		"reflect.ValueOf": func(a *Act, st *State, callee *ssa.Function, args []Term, pos token.Pos) []Term {
+			a.tr.eng.declareOnce(a.tr, "spec_rvOf", "(declare-fun spec_rvOf (Val) Int)")
+			return []Term{app("spec_rvOf", args[0])}
+		},
+		"reflect.Zero": func(a *Act, st *State, callee *ssa.Function, args []Term, pos token.Pos) []Term {
+			a.tr.eng.declareOnce(a.tr, "spec_rvZero", "(declare-fun spec_rvZero (Val) Int)")
+			return []Term{app("spec_rvZero", args[0])}
+		},
+		"(reflect.Value).Interface": func(a *Act, st *State, callee *ssa.Function, args []Term, pos token.Pos) []Term {
+			tr := a.tr
+			tr.eng.declareOnce(tr, "spec_rvInterface", "(declare-fun spec_rvInterface (Int) Val)")
+			r := app("spec_rvInterface", args[0])
+			a.assumeWF(st, types.NewInterfaceType(nil, nil), r, 1)
+			return []Term{r}
+		},
+		"(reflect.Value).Call": func(a *Act, st *State, callee *ssa.Function, args []Term, pos token.Pos) []Term {
+			tr := a.tr
+			// reflect panics (before invoking) unless every argument is assignable to its parameter
+			ok := tr.freshConst("assignable", "Bool")
+			c := tr.comp("ghost:assignable", nil, "Int", false)
+			st.heap[c.name] = tr.heapStore(tr.heapOf(st, c), nil, Ite(ok, "1", "0"))
+			a.mayPanic(st, "reflectcall", pos, ok, tr.freshConst("reflectpanic", "Val"))
+			ic := tr.comp("ghost:invoked", nil, "Int", false)
+			cur := tr.read(tr.heapOf(st, ic))
+			st.heap[ic.name] = tr.heapStore(tr.heapOf(st, ic), nil, tr.define("invoked", "Int", app("+", cur, "1")))
+			la := tr.comp("ghost:invokedLen", nil, "Int", false)
+			st.heap[la.name] = tr.heapStore(tr.heapOf(st, la), nil, app("s_len", args[1]))
+			// the called Go function may itself panic
+			fok := tr.freshConst("gofn_returns", "Bool")
+			a.mayPanic(st, "gofunc", pos, fok, tr.freshConst("gofnpanic", "Val"))
+			r := tr.freshConst("callres", "Slice")
+			tr.assume(Implies(st.reach, And(tr.wfSlice(r), app(">", app("s_arr", r), st.alloc), Eq(app("s_len", r), app("spec_rtNumOutOfValue", args[0])))), "reflect.Value.Call returns NumOut results in a fresh slice")
+			tr.eng.declareOnce(tr, "spec_rtNumOutOfValue", "(declare-fun spec_rtNumOutOfValue (Int) Int)")
+			st.alloc = tr.define("alloc", "Int", app("s_arr", r))
+			return []Term{r}
+		},
 		"time.Until": func(a *Act, st *State, callee *ssa.Function, args []Term, pos token.Pos) []Term {
 			return []Term{a.tr.freshConst("dur", "Int")}
 		},
